@@ -50,6 +50,7 @@ def run_property(pid, tier, only=None):
     for q in funcs:
         E = engine.Engine(REG)
         E.pid = pid
+        E.pid_also = set(spec.get('includes', []))     # clauses of these properties are assumed (proved by their own check)
         try:
             mod, node, cnode = frontend.find_def(q)
             t0 = time.time()
@@ -65,7 +66,8 @@ def run_property(pid, tier, only=None):
         for k in stats_all:
             stats_all[k] |= E.stats[k]
         all_obs += [o for o in E.obs if o.info.get('tags') is None or pid in o.info['tags']]
-    results = engine.discharge(all_obs, timeout_ms=timeout_ms, seed=seed)
+    known0 = set(k['obligation'] for k in load_known().get('findings', []) if k['property'] == pid)
+    results = engine.discharge(all_obs, timeout_ms=timeout_ms, seed=seed, no_retry=known0)
     # group by obligation name
     groups = {}
     canaries = {}
